@@ -82,3 +82,81 @@ Definition bad_triples : list (nat * nat * nat) :=
   flat_map (fun Pi => flat_map (fun s => flat_map (fun Ci =>
      if existsb (fun p => bad_at (fst Pi) (snd Pi) p s (fst Ci) (snd Ci)) reach_precs then [(fst Pi, s, fst Ci)] else [])
      info_tbl) (slots_of (snd Pi))) info_tbl.
+
+(* ================= C01: the parser's levels against the reference order (Spec/RefOrder.v) ================= *)
+From MoSql Require Import Spec.RefOrder.
+Open Scope string_scope.
+
+Fixpoint words_eqb (a b : list string) : bool :=
+  match a, b with [] , [] => true | x :: a', y :: b' => String.eqb x y && words_eqb a' b' | _, _ => false end.
+Definition kind_str (e : entry) : string :=
+  match e with EPre _ => "pre" | ESuf _ => "suf" | EBin _ => "bin" | ETern _ _ => "tern" end.
+Definition ref_find (k : string) (ws : list string) : option (nat * string) :=
+  match find (fun r => String.eqb (fst (fst (fst r))) k && words_eqb (snd (fst (fst r))) ws) ref_tbl with
+  | Some r => Some (snd (fst r), snd r) | None => None end.
+Definition name_str (n : nat) : string := nth n names "".
+(* reference level and documented name of spelling s, when it belongs to the property's vocabulary *)
+Definition ref_of_sp (s : nat) : option (nat * string) :=
+  match nth_error spellings s with
+  | Some (e, ws, _) => match nth_error tbl e with Some en => ref_find (kind_str en) ws | None => None end
+  | None => None end.
+(* every spelling of the vocabulary gets its documented name *)
+Definition names_ok : bool :=
+  forallb (fun i => match nth_error spellings i, ref_of_sp i with
+                    | Some (_, _, Some n), Some (_, doc) => String.eqb (name_str n) doc
+                    | Some (_, _, None), Some _ => false
+                    | _, _ => true end) (seq 0 (List.length spellings)).
+(* the flattening set is the documented one *)
+Definition flatten_ok : bool :=
+  forallb (fun n => existsb (String.eqb (name_str n)) ref_flatten) flat_names
+  && forallb (fun s => existsb (fun n => String.eqb (name_str n) s) flat_names) ref_flatten.
+(* reference level of an entry: all its vocabulary spellings must agree *)
+Definition entry_ref (e : nat) : option nat :=
+  let ls := flat_map (fun i => match nth_error spellings i with
+                               | Some (e', _, _) => if Nat.eqb e e' then match ref_of_sp i with Some (l, _) => [l] | None => [] end else []
+                               | None => [] end) (seq 0 (List.length spellings)) in
+  match ls with [] => None | l :: r => if forallb (Nat.eqb l) r then Some l else Some 0 end.
+Definition eslots (e : entry) : list nat :=
+  match e with EPre _ | ESuf _ => [0] | EBin _ => [0; 1] | ETern _ _ => [0; 1; 2] end.
+Definition edge_rule (e : entry) (s : nat) (lc lp : nat) : bool :=
+  match e with
+  | EPre _ | ESuf _ => Nat.leb lc lp
+  | _ => match s with 0 => Nat.leb lc lp | _ => Nat.ltb lc lp end
+  end.
+(* (parent entry, slot, child entry) triples where the reference order lets the child stand without parentheses
+   but the library's levels do not *)
+Definition bad_ref_triples : list (nat * nat * nat) :=
+  flat_map (fun P => match nth_error tbl P, entry_ref P with
+    | Some eP, Some rP =>
+        flat_map (fun s => flat_map (fun C => match entry_ref C with
+             | Some rC => if edge_rule eP s rC rP && negb (edge_rule eP s C P) then [(P, s, C)] else []
+             | None => [] end) (seq 0 (List.length tbl))) (eslots eP)
+    | _, _ => [] end) (seq 0 (List.length tbl)).
+
+(* boolean versions of the well-formedness premises of parse_tokens, so that they can be evaluated on concrete trees *)
+Definition le_lvlb (e : ast jv) (L : nat) : bool :=
+  match e with Leaf _ _ => true
+  | NPre _ k _ _ | NSuf _ k _ _ | NBin _ k _ _ _ | NTern _ k _ _ _ _ _ => Nat.leb k L end.
+Definition lt_lvlb (e : ast jv) (L : nat) : bool :=
+  match e with Leaf _ _ => true
+  | NPre _ k _ _ | NSuf _ k _ _ | NBin _ k _ _ _ | NTern _ k _ _ _ _ _ => Nat.ltb k L end.
+Fixpoint wfb (e : ast jv) : bool :=
+  match e with
+  | Leaf _ _ => true
+  | NPre _ k _ c => match nth_error tbl k with Some (EPre _) => true | _ => false end && le_lvlb c k && wfb c
+  | NSuf _ k _ c => match nth_error tbl k with Some (ESuf _) => true | _ => false end && le_lvlb c k && wfb c
+  | NBin _ k _ l r => match nth_error tbl k with Some (EBin _) => true | _ => false end
+                      && le_lvlb l k && lt_lvlb r k && wfb l && wfb r
+  | NTern _ k _ _ a b c => match nth_error tbl k with Some (ETern _ _) => true | _ => false end
+                      && le_lvlb a k && lt_lvlb b k && lt_lvlb c k && wfb a && wfb b && wfb c
+  end.
+Definition flat' := flat jv (bpre mname_of) (bsuf mname_of) (bbin mname_of mis_flat mfold_of) (btern mname_of) wrap.
+Definition peval' := peval jv (bpre mname_of) (bsuf mname_of) (bbin mname_of mis_flat mfold_of) (btern mname_of) wrap.
+Fixpoint pwfb (a : past jv) : bool :=
+  match a with
+  | PLeaf _ _ => true
+  | PParen _ a => pwfb a && wfb (flat' a)
+  | PPre _ _ _ c | PSuf _ _ _ c => pwfb c
+  | PBin _ _ _ l r => pwfb l && pwfb r
+  | PTern _ _ _ _ a b c => pwfb a && pwfb b && pwfb c
+  end.
